@@ -31,6 +31,7 @@ func runC14(c *Ctx, r *Report) {
 	c14LoopCycles(c, r)
 	c14CallBoundary(c, r)
 	c14NoLiveMapWalk(c, r)
+	c14KeepCollections(c, r)
 	r.Rule("R14.9", "statement-written interpreter state is per record (= R11.6)")
 	c11FilterPerRecord2(c, r)
 }
